@@ -139,12 +139,16 @@ def run_history(case):
                 classes.add("sticks_out_of_span_by_one_ulp")
                 what = f"step {k} {op} -> entry {entry}"
             form = op.get("form", "obj")
+            raw_entry = list(entry)
+            entry = list(entry[:-1]) + [entry[-1].strip()]
+            if raw_entry[-1] != entry[-1]:
+                classes.add("untrimmed_label_given")
             if form == "obj":
-                arg = (p.Interval if model.is_int else p.Point)(*entry)
+                arg = (p.Interval if model.is_int else p.Point)(*raw_entry)
             elif form == "tuple":
-                arg = tuple(entry)
+                arg = tuple(raw_entry)
             else:
-                arg = list(entry)
+                arg = list(raw_entry)
             m = model.matches(tuple(entry))
             before = snap_tier(tier)
             lo, hi = entry[0], (entry[1] if model.is_int else entry[0])
@@ -243,6 +247,7 @@ def histories(draw):
     is_int = draw(st.integers(0, 2)) > 0
     lat = lattice(style)
     lab = st.sampled_from(["a", "b", "c", "", "x y"])
+    ins_lab = st.sampled_from(["a", "b", "c", "", "x y", " a", "b ", " x y\n"])  # stored trimmed, like every label
     n0 = draw(st.integers(0, 5))
     if is_int:
         bs = sorted(draw(st.lists(lat, min_size=2 * n0, max_size=2 * n0, unique=True)))
@@ -293,9 +298,9 @@ def histories(draw):
                     a = a - 5e-9  # reaches a few nanoseconds into whatever ends at the lattice point
                 elif r == 1:
                     b = b + 5e-9
-                entry = [a, b, draw(lab)]
+                entry = [a, b, draw(ins_lab)]
             else:
-                entry = [draw(lat), draw(lab)]
+                entry = [draw(lat), draw(ins_lab)]
             ops.append({"op": "insert", "entry": entry, "mode": draw(st.sampled_from(["error", "replace", "merge", "merge"])),
                         "report": draw(st.sampled_from(["silence", "warning"])),
                         "form": draw(st.sampled_from(["obj", "tuple", "list"]))})
